@@ -20,20 +20,25 @@ hs.append(H(P + "c29_ed_empty_refused", timeout=300, mem=6, covers=1, extra_args
 hs.append(H(P + "c29_ed_control", timeout=300, mem=6, covers=1, extra_args=STUB, desc="flush/delim/response-end decode to themselves", inputs="3 control lines", bound="-"))
 hs.append(H(P + "c29_encode_limit", timeout=600, mem=8, covers=2, extra_args=STUB, desc="data/text/ERR/band encoders: the largest admissible line (65516 data bytes incl. what the encoder adds) is written as 65520 bytes, one more byte is refused",
             inputs="concrete payloads at the boundary, encoder symbolic", bound="-"))
+for n in (5, 6, 8):
+    hs.append(H(P + "c29_reader_%d" % n, tier="quick" if n <= 6 else "thorough", timeout=900, mem=12, covers=3, extra_args=STUB, cbmc_args=["--arrays-uf-always"], thorough_timeout=2400,
+                desc="the line reader kernel read_line_inner (behind StreamingPeekableIter::read_line/peek_line), buffer of MAX_LINE_LEN bytes as at both call sites: for EVERY length prefix a line or an error - never a panic - agreeing with the format; in particular prefixes fff1..ffff",
+                inputs="all 2^32 prefixes x %d arbitrary data bytes, delivered by a byte-at-a-time reader" % (n - 4), bound="unwind 10; CBMC --arrays-uf-always (65520-byte buffer as an uninterpreted-function array: without it the query runs out of memory)"))
+
 SPEC = {
     "id": "C29",
     "crate": "h-core",
     "harnesses": hs,
     "functions": ["gix_packetline::decode::{hex_prefix,streaming,to_data_line}", "gix_packetline::encode::{data,text,error,band,flush,delim,response_end}_to_write",
-                  "PacketLineRef::{as_text,check_error,decode_band}", 
+                  "PacketLineRef::{as_text,check_error,decode_band}", "StreamingPeekableIter::read_line_inner (blocking; via a guarded forwarder)", 
                   "faster_hex::{hex_decode,hex_encode} (portable fallback)"],
     "bounds": "every 4-byte prefix; payloads <= 4 bytes plus the 65516/65517 boundary",
-    "outside": ["the blocking/async line READER (StreamingPeekableIter::read_line/peek_line): every query that carries its 65520-byte line buffer ran out of memory (20-28 GB), also through a guarded forwarder to read_line_inner with a byte-at-a-time reader; its defect for prefixes fff1..ffff was found by reading, demonstrated natively and fixed (known_findings.json) but a regression there is NOT detected by this check", "async-io variants", "side-band demultiplexing through WithSidebands (Read impl) and multi-line chunked delivery", "payload lengths between 5 and 65515",
+    "outside": ["the bookkeeping around the reader kernel in StreamingPeekableIter (delimiters, ERR handling, peek buffer swapping: Vec<u8> of 65520 bytes resized at run time)", "async-io variants", "side-band demultiplexing through WithSidebands (Read impl) and multi-line chunked delivery", "payload lengths between 5 and 65515",
                 "error message texts (alloc::fmt::format stubbed)"],
     "stubs": ["alloc::fmt::format -> empty String"],
     "assumptions": ["model_prefix is the pkt-line format of git's protocol-common documentation (unit-tested on the special values)"],
     "manifest": {
-        "text": "The solver covers all 2^32 length prefixes: classification, streaming decode (complete/incomplete/error with exact byte counts) return a value or an error for every one of them, and every data/text/ERR/side-band/control line the encoders write decodes back to itself consuming exactly the written length. Tests use a handful of prefixes. The stream reader built on top of these functions is outside the claim (its buffer is too large for the solver).",
+        "text": "The solver covers all 2^32 length prefixes: classification, streaming decode (complete/incomplete/error with exact byte counts) and the blocking reader kernel return a value or an error for every one of them, and every data/text/ERR/side-band/control line the encoders write decodes back to itself consuming exactly the written length. Tests use a handful of prefixes; the reader's behaviour on prefixes above its buffer size is only visible when all are covered.",
         "note": "Trusted: Kani/CBMC/CaDiCaL; faster-hex fallback; fmt::format stubbed; payload sizes bounded as listed; WithSidebands and chunked multi-line delivery outside.",
     },
     "explanation": "Bounded model checking of gix-packetline's codec and blocking reader over all length prefixes.",
